@@ -2,6 +2,7 @@ package strconv
 
 import (
 	"math"
+	stdstrconv "strconv"
 )
 
 // ParseDecimal parses number of the format 1.2
@@ -85,6 +86,10 @@ func AppendDecimal(b []byte, f float64, dec int) []byte {
 	}
 	for 0 < dec && 9.2e18 <= math.Abs(f)*math.Pow10(dec) {
 		dec-- // keep the scaled number within int64, those decimals are beyond float64 precision anyway
+	}
+	if 9.2e18 <= math.Abs(f) {
+		// does not fit an int64 at all: it is an integer, let the standard library write its digits
+		return stdstrconv.AppendFloat(b, f, 'f', 0, 64)
 	}
 	f *= math.Pow10(dec)
 
